@@ -438,3 +438,128 @@ Proof.
   exists (repeat 2048 16). split; [reflexivity|].
   split; [unfold kFwhtBox; cbn [repeat]; forall_lia|]. split; vm_compute; reflexivity.
 Qed.
+
+(** * TrueMotion prediction: byte inputs cannot wrap a 16-bit lane. *)
+Theorem lane16_tm_eq : forall top left tl, byte top -> byte left -> byte tl ->
+  l_tm_sample top left tl = tm_sample top left tl.
+Proof.
+  unfold byte, l_tm_sample, tm_sample, add16, sub16. intros top left tl Ht Hl Htl.
+  rewrite (wrap16_id (top - tl)) by (unfold int16; lia).
+  rewrite wrap16_id by (unfold int16; lia). f_equal. lia.
+Qed.
+
+(** * Green transforms: byte-wise PADDB/PSUBB vs the packed uint32 arithmetic. *)
+Theorem lane16_add_green_eq : forall a r g b, byte a -> byte r -> byte g -> byte b ->
+  add_green_lanes a r g b = add_green_go (argb_of a r g b).
+Proof.
+  unfold byte, add_green_lanes, add_green_go, argb_of, and_00ff00ff, and_ff00ff00. intros a r g b Ha Hr Hg Hb. cbv zeta.
+  set (p := ((a * 256 + r) * 256 + g) * 256 + b).
+  assert (E0 : p mod 256 = b) by (subst p; lia).
+  assert (E1 : (p / 256) mod 256 = g) by (subst p; lia).
+  assert (E2 : (p / 65536) mod 256 = r) by (subst p; lia).
+  assert (E3 : (p / 16777216) mod 256 = a) by (subst p; lia).
+  rewrite E0, E1, E2, E3.
+  set (rb := (b + r * 65536 + g * 65537) mod 4294967296).
+  assert (F : rb = (r + g) * 65536 + (b + g)) by (subst rb; lia).
+  assert (G0 : rb mod 256 = (b + g) mod 256) by (rewrite F; lia).
+  assert (G2 : (rb / 65536) mod 256 = (r + g) mod 256) by (rewrite F; lia).
+  rewrite G0, G2. lia.
+Qed.
+
+Theorem lane16_sub_green_eq : forall a r g b, byte a -> byte r -> byte g -> byte b ->
+  sub_green_lanes a r g b = sub_green_go (argb_of a r g b).
+Proof.
+  unfold byte, sub_green_lanes, sub_green_go, argb_of, and_ff00ff00. intros a r g b Ha Hr Hg Hb. cbv zeta.
+  set (p := ((a * 256 + r) * 256 + g) * 256 + b).
+  assert (E0 : p mod 256 = b) by (subst p; lia).
+  assert (E1 : (p / 256) mod 256 = g) by (subst p; lia).
+  assert (E2 : (p / 65536) mod 256 = r) by (subst p; lia).
+  assert (E3 : (p / 16777216) mod 256 = a) by (subst p; lia).
+  rewrite E0, E1, E2, E3.
+  assert (G0 : ((b - g) mod 4294967296) mod 256 = (b - g) mod 256) by lia.
+  assert (G2 : ((r - g) mod 4294967296) mod 256 = (r - g) mod 256) by lia.
+  rewrite G0, G2. lia.
+Qed.
+
+(** * SSE: 16-bit differences, 32-bit accumulation (up to 16x16 samples). *)
+Lemma l_sq_eq x y : byte x -> byte y -> l_sq x y = (x - y) * (x - y) /\ 0 <= (x - y) * (x - y) <= 65025.
+Proof.
+  unfold byte, l_sq, sub16. intros Hx Hy. rewrite wrap16_id by (unfold int16; lia). split; [reflexivity|].
+  set (d := x - y). assert (Hd : -255 <= d <= 255) by (subst d; lia). clearbody d.
+  pose proof (Z.square_nonneg d) as S0.
+  pose proof (Z.mul_nonneg_nonneg (255 - d) (255 + d) ltac:(lia) ltac:(lia)) as S1.
+  replace ((255 - d) * (255 + d)) with (65025 - d * d) in S1 by ring. lia.
+Qed.
+
+Lemma l_sse_list_eq_aux l :
+  Forall (fun xy => byte (fst xy) /\ byte (snd xy)) l -> (length l <= 1024)%nat ->
+  fold_right (fun v acc => wrap32 (v + acc)) 0 (map (fun xy => l_sq (fst xy) (snd xy)) l)
+  = fold_right Z.add 0 (map (fun xy => (fst xy - snd xy) * (fst xy - snd xy)) l)
+  /\ 0 <= fold_right Z.add 0 (map (fun xy => (fst xy - snd xy) * (fst xy - snd xy)) l) <= 65025 * Z.of_nat (length l).
+Proof.
+  induction l as [|[x y] l IH]; intros HF HL; [cbn; lia|].
+  inversion HF as [|? ? [Hx Hy] HF']; subst. cbn [length] in HL.
+  destruct (IH HF' ltac:(lia)) as [IH1 IH2]. cbn [map fold_right fst snd] in *.
+  destruct (l_sq_eq x y Hx Hy) as [E B]. rewrite IH1, E. cbn [length].
+  split; [|lia]. unfold wrap32. lia.
+Qed.
+
+Theorem lane16_sse_eq : forall a b, Forall byte a -> Forall byte b -> (length a <= 1024)%nat ->
+  l_sse_list a b = sse_list a b.
+Proof.
+  intros a b Ha Hb HL. unfold l_sse_list, sse_list.
+  apply l_sse_list_eq_aux.
+  - clear HL. revert b Hb. induction Ha as [|x a Hx Ha IH]; intros b Hb; [constructor|].
+    destruct Hb as [|y b Hy Hb]; [constructor|]. cbn [combine]. constructor; [cbn; auto|]. apply IH, Hb.
+  - rewrite combine_length. lia.
+Qed.
+
+(** * Simple loop filter: one column. *)
+Lemma clamp_minmax lo hi x : lo <= hi -> Z.max lo (Z.min hi x) = clampz lo hi x.
+Proof. unfold clampz. intros H. destruct (x <? lo) eqn:E1; destruct (hi <? x) eqn:E2; lia. Qed.
+
+Lemma clampz_range lo hi x : lo <= hi -> lo <= clampz lo hi x <= hi.
+Proof. unfold clampz. intros H. destruct (x <? lo) eqn:E1; [lia|]. destruct (hi <? x) eqn:E2; lia. Qed.
+
+Theorem lane16_simple_filter_eq : forall p1 p0 q0 q1 thresh,
+  byte p1 -> byte p0 -> byte q0 -> byte q1 -> 0 <= thresh <= 32767 ->
+  simple_filter_lane p1 p0 q0 q1 thresh = simple_filter_go p1 p0 q0 q1 thresh.
+Proof.
+  unfold byte. intros p1 p0 q0 q1 thresh H1 H0 G0 G1 HT.
+  unfold simple_filter_lane, simple_filter_go, max16, min16. cbv zeta.
+  assert (W : forall x, -32768 <= x <= 32767 -> wrap16 x = x) by (intros; apply wrap16_id; assumption).
+  unfold sub16, add16, shl16. change (2 ^ 2) with 4.
+  rewrite (W (p0 - q0)), (W (q0 - p0)), (W (p1 - q1)), (W (q1 - p1)) by lia.
+  replace (Z.max (p0 - q0) (q0 - p0)) with (Z.abs (p0 - q0)) by lia.
+  replace (Z.max (p1 - q1) (q1 - p1)) with (Z.abs (p1 - q1)) by lia.
+  rewrite (W (Z.abs (p0 - q0) * 4)) by lia.
+  rewrite (W (Z.abs (p0 - q0) * 4 + Z.abs (p1 - q1))) by lia.
+  rewrite (clamp_minmax (-128) 127) by lia.
+  set (s := clampz (-128) 127 (p1 - q1)).
+  assert (Hs : -128 <= s <= 127) by (subst s; apply clampz_range; lia).
+  rewrite (W (q0 - p0 + (q0 - p0))), (W (q0 - p0 + (q0 - p0) + (q0 - p0))) by lia.
+  rewrite (W (q0 - p0 + (q0 - p0) + (q0 - p0) + s)) by lia.
+  replace (q0 - p0 + (q0 - p0) + (q0 - p0) + s) with (3 * (q0 - p0) + s) by lia.
+  set (a := 3 * (q0 - p0) + s).
+  assert (Ha : -893 <= a <= 892) by (subst a; lia).
+  rewrite (W (a + 4)), (W (a + 3)) by lia.
+  unfold sra16. change (2 ^ 3) with 8.
+  rewrite !(clamp_minmax (-16) 15) by lia.
+  set (a1 := clampz (-16) 15 ((a + 4) / 8)). set (a2 := clampz (-16) 15 ((a + 3) / 8)).
+  assert (Ha1 : -16 <= a1 <= 15) by (subst a1; apply clampz_range; lia).
+  assert (Ha2 : -16 <= a2 <= 15) by (subst a2; apply clampz_range; lia).
+  set (sum := Z.abs (p0 - q0) * 4 + Z.abs (p1 - q1)).
+  assert (Hsum : 0 <= sum <= 1275) by (subst sum; lia).
+  assert (Hm : (subus16 sum (wrap16 (2 * thresh + 1)) =? 0) = (4 * Z.abs (p0 - q0) + Z.abs (p1 - q1) <=? 2 * thresh + 1)).
+  { unfold subus16, wrap16. fold sum. replace (4 * Z.abs (p0 - q0) + Z.abs (p1 - q1)) with sum by (subst sum; lia).
+    destruct (sum <=? 2 * thresh + 1) eqn:E; lia. }
+  rewrite Hm. destruct (4 * Z.abs (p0 - q0) + Z.abs (p1 - q1) <=? 2 * thresh + 1).
+  - rewrite (W (p0 + a2)), (W (q0 - a1)) by lia. reflexivity.
+  - rewrite (W (p0 + 0)), (W (q0 - 0)) by lia. unfold clip8.
+    destruct (p0 + 0 <? 0) eqn:E1; [lia|]. destruct (255 <? p0 + 0) eqn:E2; [lia|].
+    destruct (q0 - 0 <? 0) eqn:E3; [lia|]. destruct (255 <? q0 - 0) eqn:E4; [lia|]. f_equal; lia.
+Qed.
+
+(** The filter models are exercised by inputs on which the filter fires. *)
+Example simple_filter_fires : simple_filter_go 100 104 120 118 63 = (108, 116) /\ simple_filter_lane 100 104 120 118 63 = (108, 116).
+Proof. split; vm_compute; reflexivity. Qed.
